@@ -26,7 +26,9 @@ Bounded(T) == \A n \in 1..Len(T.data) : T.data[n] \in (-ValueBound)..ValueBound
 
 WellFormed(e) ==
     /\ {"id", "cfg", "in", "runs"} \subseteq DOMAIN e
-    /\ {"op", "fshapes", "wlen", "coreshape", "pshapes", "hasw", "pden", "bad", "skip", "tr", "modes", "mix", "dens", "cden", "imk", "outdtype", "late", "mag", "bfshapes", "wshape", "tmag", "zero", "alldtype", "pnear"} \subseteq DOMAIN e.cfg
+    /\ {"op", "fshapes", "wlen", "coreshape", "pshapes", "hasw", "pden", "bad", "skip", "tr", "modes", "mix", "dens", "cden", "imk", "outdtype", "late", "mag", "bfshapes", "wshape", "tmag", "zero", "alldtype", "pnear", "callform", "alias", "vals"} \subseteq DOMAIN e.cfg
+    /\ e.cfg.callform \in {"plain", "pos", "kw"} /\ e.cfg.alias \in BOOLEAN /\ e.cfg.vals \in {"plain", "negzero", "subnormal"}
+    /\ "aliased" \in DOMAIN e.in /\ \A k \in 1..Len(e.in.aliased) : e.in.aliased[k] \in 1..Len(e.in.fs)
     /\ e.cfg.pnear \in {-1, 0, 1}
     /\ e.cfg.tmag \in -600..600
     /\ e.cfg.late \in BOOLEAN /\ e.cfg.mag \in -600..600
@@ -56,13 +58,15 @@ WellFormed(e) ==
           /\ \A x \in 1..Len(e.runs[k].xnorms) : {"has", "fin0", "fin3", "fin6", "q3", "q0", "q6", "iszero"} \subseteq DOMAIN e.runs[k].xnorms[x]
           /\ (e.cfg.op = "cp" => "masked" \in DOMAIN e.runs[k])
           /\ (e.cfg.op = "ttm" => "matrix" \in DOMAIN e.runs[k])
-          /\ (e.cfg.op = "p2" => {"slices", "slice1", "slices_nv", "slice1_nv", "slice1n"} \subseteq DOMAIN e.runs[k])
+          /\ (e.cfg.op = "p2" => {"slices", "slice1", "slices_nv", "slice1_nv", "slice1n", "projected"} \subseteq DOMAIN e.runs[k])
 
 \* the harness filled exactly the arrays the exported configuration asked for
 InDomain(e) ==
     LET c == e.cfg  in == e.in IN
     /\ [k \in 1..Len(in.fs) |-> in.fs[k].shape] = c.fshapes
     /\ (c.op \in {"cp", "p2"} => in.hasw = c.hasw /\ Len(in.w) = c.wlen /\ in.wshape = c.wshape)
+    \* aliased factors are one array: equal contents
+    /\ (Len(in.aliased) = 2 => in.fs[in.aliased[1]].shape = in.fs[in.aliased[2]].shape /\ in.fs[in.aliased[1]].data = in.fs[in.aliased[2]].data)
     \* an exactly-zero tensor: some whole part is zero
     /\ (c.zero # "none" =>
             \/ \E k \in 1..Len(in.fs) : \A n \in 1..Len(in.fs[k].data) : in.fs[k].data[n] = 0
@@ -156,6 +160,12 @@ Verdict(e) ==
             ELSE IF kd = "p2" /\ ~SlicesOK(r.slices) THEN "Slices"
             ELSE IF kd = "p2" /\ ~SlicesOK(r.slice1) THEN "Slice"
             ELSE IF kd = "p2" /\ (~SlicesOK(r.slices_nv) \/ ~SlicesOK(r.slice1_nv)) THEN "SliceNoValidate"
+            \* apply_parafac2_projections: the evolving factors B_i = P_i B (checked where the parts are plain integers)
+            ELSE IF kd = "p2" /\ c.mix \in {"none", "f32_all"} /\ c.mag = 0 /\ c.tmag = 0 /\ c.pnear = 0
+                    /\ ~(/\ Len(r.projected) = Len(in.ps)
+                         /\ \A s \in 1..Len(in.ps) : /\ IsLoggedT(r.projected[s]) /\ r.projected[s].shape = <<in.ps[s].shape[1], P2Rank(in)>>
+                                                      /\ \A j \in 0..(in.ps[s].shape[1] - 1) : \A q \in 0..(P2Rank(in) - 1) :
+                                                            r.projected[s].data[j * P2Rank(in) + q + 1] = P2Bi(in, s, j, q)) THEN "Projected"
             \* the dense conversion repeated AFTER all other views (on the same object in the *_seq runs): the
             \* stored factors must not have been changed by the conversions in between
             ELSE IF ~CV(r.dense2, D, DI) THEN "DenseAgain"
@@ -177,7 +187,7 @@ Verdict(e) ==
             /\ r.dense = s.dense /\ r.unf = s.unf /\ r.vec = s.vec /\ r.shape = s.shape /\ r.rank = s.rank
             /\ r.dtype = s.dtype /\ r.dense2 = s.dense2 /\ r.unfn = s.unfn
             /\ (kd = "cp" => r.masked = s.masked) /\ (kd = "ttm" => r.matrix = s.matrix)
-            /\ (kd = "p2" => r.slices = s.slices /\ r.slice1 = s.slice1 /\ r.slices_nv = s.slices_nv /\ r.slice1_nv = s.slice1_nv /\ r.slice1n = s.slice1n)
+            /\ (kd = "p2" => r.slices = s.slices /\ r.slice1 = s.slice1 /\ r.slices_nv = s.slices_nv /\ r.slice1_nv = s.slice1_nv /\ r.slice1n = s.slice1n /\ r.projected = s.projected)
         ClauseOf(k) == IF k = k0 THEN c0
                        ELSE IF c0 = "ok" /\ SameViews(R[k], R[k0]) THEN (IF NormOK(R[k]) THEN "ok" ELSE "Norm")
                        ELSE Clause(R[k])
